@@ -59,6 +59,7 @@ def replay(ctx, hist, pool_seed, log=None, tid=0):
     ver = {c: 0 for c in purity.CATS}
     seen = {}
     mutated = []
+    assigned = {}
     last = None
     mod0 = purity.h(repr(purity.module_state()))
     for k, (op, o) in enumerate(hist):
@@ -68,6 +69,9 @@ def replay(ctx, hist, pool_seed, log=None, tid=0):
             pool.mutate(o)
             ver[o] += 1
             mutated.append(o)
+            tgt = pool.objs[o]
+            tgt = tgt.regions[0] if o == 'lst' else (tgt.region1 if o == 'cmp' else tgt)
+            assigned[o] = type(tgt).__name__
             if log is not None:
                 log.append({'tid': tid, 'op': 'mutate', 'obj': o, 'variant': 0, 'ver': ver[o], 'pre': pre,
                             'post': purity.h(repr(pool.fingerprint())), 'modpre': mod0, 'modpost': mod0, 'res': '-'})
@@ -87,6 +91,15 @@ def replay(ctx, hist, pool_seed, log=None, tid=0):
                 r2 = purity.h(repr(purity.fp(pool.run(op, o, kk))))
             except Exception as ex:  # noqa
                 r2 = 'raised ' + type(ex).__name__
+            # the same call on an equal object constructed afresh from the current parameter values
+            keep = pool.objs[o]
+            try:
+                pool.objs[o] = pool.rebuilt(o)
+                r3 = purity.h(repr(purity.fp(pool.run(op, o, kk))))
+            except Exception as ex:  # noqa
+                r3 = 'raised ' + type(ex).__name__
+            finally:
+                pool.objs[o] = keep
         kind = type(pool.objs[o]).__name__ if o != 'lst' else 'Regions[' + ','.join(sorted({type(r).__name__ for r in pool.objs[o].regions})) + ']'
         case = {'pool_seed': pool_seed, 'history': [list(x) for x in hist[:k + 1]], 'op': op, 'object': o, 'kind': kind, 'variant': kk}
         ctx.case((op, kind, kk, ver[o]), not r1.startswith('raised'))
@@ -103,6 +116,8 @@ def replay(ctx, hist, pool_seed, log=None, tid=0):
             ctx.violation(f'C13|module-state|{op}|{kind_sig(kind)}', f'{op} on {kind} changed module-level state', case)
         if r2 != r1:
             ctx.violation(f'C13|repeat|{op}|{kind_sig(kind)}', f'{op} on {kind} gives a different result when repeated', case)
+        if r3 != r1 and op != 'write':
+            ctx.violation(f"C13|stale|{op}|{kind_sig(kind)}|after-assign:{assigned.get(o, 'none')}", f'{op} on {kind} differs from the same call on an equal, freshly constructed object (hidden state)', case)
         key = (op, o, kk, ver[o])
         if key in seen and seen[key] != r1:
             ctx.violation(f'C13|history|{op}|{kind_sig(kind)}', f'{op} on {kind} gives a different result after other calls', case)
